@@ -436,7 +436,9 @@ macro "tlb_struct" "[" ds:Lean.Parser.Tactic.simpLemma,* "]" : tactic =>
       recd_dec, decFields_cons, decFields_nil, maybe_dec, ctag_dec, tagged_dec, decAlts_cons, decAlts_nil, named_dec,
       constrained_dec, ref_dec, nothing_dec, cellRef_dec, uint1_dec, vBetween_iff, ite_dec, bitLen_60, bitLen_96, bitLen_30,
       forall_exists_index, and_imp, or_imp, false_imp_iff, imp_true_iff, and_true, true_and, Frag.mk.injEq, tag, natToBits,
-      List.cons_append, List.nil_append, List.append_assoc, Nat.reduceDiv, Nat.reduceMod, Nat.reduceBEq, Nat.reduceBNe])
+      List.cons_append, List.nil_append, List.append_assoc, Nat.reduceDiv, Nat.reduceMod, Nat.reduceBEq, Nat.reduceBNe,
+      Nat.le_zero_eq, Nat.zero_le, ↓reduceIte, if_true, if_false, Nat.reduceEqDiff, Nat.succ_ne_zero, ne_eq,
+      not_false_eq_true, not_true_eq_false])
 
 /-- evaluation of the regenerated reader under the decomposed facts -/
 macro "tlb_eval" "[" ds:Lean.Parser.Tactic.simpLemma,* "]" : tactic =>
